@@ -67,33 +67,10 @@ func (s *gkvp) Add(as ...Attr) {
 // }
 
 func (s *gkvp) SerializeValueTo(pc *PrintCtx) {
-	if pc.jsonMode {
-		if pc.noColor {
-			pc.pcAppendStringKey(s.key)
-			pc.pcAppendByte(':')
-		} else {
-			ct.wrapDimColorTo(pc, s.key)
-			pc.pcAppendByte(':')
-			ct.echoColorAndBg(pc, pc.clr, pc.bg)
-		}
-	}
-	// if sb.jsonMode {
-	// 	sb.appendRune('{')
-	// }
-	// for ix, attr := range s.items {
-	// 	if ix > 0 {
-	// 		sb.appendRune(',')
-	// 	}
-	// 	sb.appendStringKey(attr.Key())
-	// 	sb.appendRune('=')
-	// 	sb.appendValue(attr.Value())
-	// }
-	// if sb.jsonMode {
-	// 	sb.appendRune('}')
-	// }
-	// the items are shared with the caller and with every goroutine that
-	// logs this group: sort a copy, never the group's own slice
-	_ = serializeAttrs(pc, slices.Clone(s.items))
+	// a group given as the VALUE of a key ("k", Group("g", ...)): the value
+	// is an attribute list with one member, the group itself. So it prints
+	// like any other nested list: {"g":{...}} in JSON, k.g.x=... in text.
+	Attrs{s}.SerializeValueTo(pc)
 }
 
 func (s Attrs) SerializeValueTo(pc *PrintCtx) {
